@@ -2,6 +2,7 @@
 from __future__ import annotations
 
 import json
+import os
 
 from vf import calls, env, judge, pool
 from vf.lib import Mon
@@ -31,7 +32,7 @@ _POOL = {}
 
 def the_pool(tier, path=None):
     if tier not in _POOL:
-        if path:
+        if path and os.path.exists(path):
             with open(path, encoding="utf-8") as fp:
                 _POOL[tier] = json.load(fp)
         else:
